@@ -127,7 +127,7 @@ theorem restoreTrashDirs_eq (fs : FS) (c : ReadCfg) (trashDir : Option Bytes) :
 /-! ### trash-restore -/
 
 def restoreEntriesOfS (fs : FS) (cwd : CPath) (trashDir volume : Bytes) : List Entry :=
-  let infoDir := pjoin (normpath trashDir) (b "info")
+  let infoDir := pjoin trashDir (b "info")
   match listdirStrS fs cwd infoDir with
   | none => []
   | some ns =>
